@@ -211,6 +211,24 @@ theorem no_stale_pointer_use (lists : List (List Nat)) (progs : List (List Op)) 
   obtain ⟨d, hd, hdr⟩ := List.mem_map.1 hmem
   exact hne d (List.mem_filter.1 hd).1 hdr
 
+/-- **A locked list is nobody else's.** In every reachable state, for every
+    list `l` whose mutex thread `t` holds: a step of any *other* thread leaves
+    `l`'s mutex with `t` and `l`'s buffer as it is — same elements, same
+    capacity, same generation (no relocation). So everything an operation does
+    to a list between taking its lock and releasing it — looking an element up
+    and cloning it, walking over all elements (`to_vec`, `==`, `contains`,
+    `index`, the copy of `concat`) — sees one state of that list and reads
+    through addresses that stay valid, however the other threads are scheduled
+    in between. (With `lock_structure_derived_from_source`: every buffer access
+    of the source lies inside such a section.) -/
+theorem locked_list_untouched_by_other_threads (lists : List (List Nat)) (progs : List (List Op))
+    (sched : List Nat) (s : State) (hrun : run RotoV.Gen.C16.facts (init lists progs) sched = some s)
+    (t u l : Nat) (hne : u ≠ t) (hown : (s.cells l).owner = some t)
+    (s' : State) (hstep : step RotoV.Gen.C16.facts u s = some s') :
+    (s'.cells l).owner = some t ∧ (s'.cells l).raw = (s.cells l).raw := by
+  have f := run_facts facts_guarded sched _ _ (inv_init lists progs) hrun
+  exact step_frame facts_guarded f.inv hstep l t (Ne.symm hne) hown
+
 /-- **T1 `atomic_ops_linearizable`.** For every number of threads, all programs
     (all operations) and every schedule: the completed operations, *in the order
     in which they completed*, are a sequential execution of the shared-vector
@@ -359,6 +377,11 @@ example : resultsAfter RotoV.Gen.C16.facts [[1], [2]] [[.concat 0 1], [.concat 1
 example : seqConsistent [[1, 2, 3, 4]] [[.push 0 7], [.concat 0 0]]
     [[.unit], [.list [1, 2, 3, 4, 7, 1, 2, 3, 4, 7]]] = true := by decide
 example : Facts.asWritten ≠ Facts.guarded := by decide
+/-- `locked_list_untouched_by_other_threads` is about something: while thread 0
+    stands between the lookup and the clone of `get` it owns list 0, and thread
+    1 can take a step (on the other list) -/
+example : (run RotoV.Gen.C16.facts (init [[1, 2, 3, 4], [5]] [[.get 0 1], [.push 1 9]]) [0]).map
+    (fun s => ((s.cells 0).owner, (step RotoV.Gen.C16.facts 1 s).isSome)) = some (some 0, true) := by decide
 /-- the derived skeletons are not trivial: `concat` of two lists has three steps,
     the second of which starts while `self`'s guard is held -/
 example : (srcSkel (.concat 0 1)).length = 3 ∧ ((srcSkel (.concat 0 1))[0]?).map (·.holdsAfter) = some [.self] := by
